@@ -35,7 +35,9 @@ func ruleAppTypeDefault(c *Ctx, rule string) {
 				v = w
 			}
 		}
-		_ = host
+		if ins, isIns := v.(ssa.Instruction); isIns && ins.Parent() != nil {
+			host = ins.Parent()
+		}
 		ph, isPhi := v.(*ssa.Phi)
 		okDef, okConv := false, false
 		if isPhi {
@@ -43,10 +45,10 @@ func ruleAppTypeDefault(c *Ctx, rule string) {
 				if s, ok := constStringVal(e); ok && s == sts {
 					// the edge must come from the appType == "" branch
 					pred := ph.Block().Preds[i]
-					empty := guardEdges(fn, predEq(func(x ssa.Value) bool {
+					empty := guardEdges(host, predEq(func(x ssa.Value) bool {
 						return pathEndsWith(x, "AppType") || isResultOf(x, 0, "(*Request).QueryParameter")
 					}, func(x ssa.Value) bool { s, ok := constStringVal(x); return ok && s == "" }))
-					if len(pred.Instrs) > 0 && guardedBy(fn, pred.Instrs[0], empty) {
+					if len(pred.Instrs) > 0 && guardedBy(host, pred.Instrs[0], empty) {
 						okDef = true
 					}
 					// or the merge edge itself is the appType == "" edge (default assigned before the test)
@@ -89,7 +91,7 @@ func ruleAppTypeDefault(c *Ctx, rule string) {
 		c.ob(rule, fn, "appTypePrefix default StatefulsetPrefixKey", ks[0], okDef && okConv,
 			fmt.Sprintf("the prefix given to NewKeyObj is the constant %q on the appType==\"\" edge (found=%v) and GetAppTypePrefix(appType) otherwise (found=%v); a dead store of the default shows up as a missing phi", sts, okDef, okConv))
 		// an unknown/empty prefix is rejected before a key is built
-		rej := guardEdges(fn, predEq(func(x ssa.Value) bool { return x == v }, func(x ssa.Value) bool { s, ok := constStringVal(x); return ok && s == "" }))
+		rej := guardEdges(host, predEq(func(x ssa.Value) bool { return x == v }, func(x ssa.Value) bool { s, ok := constStringVal(x); return ok && s == "" }))
 		okR := len(rej) > 0
 		for _, e := range rej {
 			if reachFromEdge(e, nil).has(ks[0]) {
